@@ -2,6 +2,7 @@ import SeqVerif.Model.SearchDocsTotals
 import SeqVerif.Model.StoreSearch
 import SeqVerif.Model.ApiSpec
 import SeqVerif.Model.MergeAggs
+import SeqVerif.Model.AggShard
 import SeqVerif.Extracted.C05
 /-!
 # C05 - results are independent of how documents are split over fractions and shards
@@ -380,6 +381,21 @@ theorem c05_x_proxy_request :
     proxyValidation = ["sr.Size < 0 || sr.Offset < 0"] ∧
     replicaOrder = ["if si.config.ShuffleReplicas { idx = util.IdxShuffle(len(hosts)) } else { idx = util.IdxFill(len(hosts)) }",
       "host := hosts[idx[i]]"] := by decide
+
+/-- **`proxy/search/ingestor.go:searchShard` has an error arm for every refusal code** (`switch resp.Code`, re-extracted):
+a store that refuses - hot store without the old data, too many unique values, MORE FRACTIONS IN RANGE THAN
+`MaxFractionHits` - answers gRPC-OK with an empty body and the code; without its arm that body would be merged as the
+shard's (empty) answer.  With C06's `SV.Agg.shardOutcome` (Model/AggShard.lean): no refusal is ever taken for data. -/
+theorem c05_x_shard_codes :
+    ∀ c, c ∈ Agg.Code.all → c ≠ .noError → ("storeapi." ++ c.name) ∈ shardCodeArms := by decide
+
+/-- **never silently short across a split**: when the proxy reports plain success, every shard answered `NO_ERROR` and
+every shard's result is in the merge - so a layout that exceeds a store's `MaxFractionHits` gives an explicit error, never
+a "complete" answer without that shard (C06's `searchOutcome_ok` at the extracted arms) -/
+theorem c05_no_silent_short (codes : List Agg.Code) (n : Nat)
+    (hok : Agg.searchOutcome (codes.map (Agg.shardOutcome shardCodeArms)) = .ok n) :
+    n = codes.length ∧ ∀ c, c ∈ codes → c = .noError :=
+  Agg.searchOutcome_ok shardCodeArms c05_x_shard_codes codes n hok
 
 /-! ## Non-vacuity: the hypotheses are met by concrete non-trivial layouts -/
 
